@@ -154,7 +154,10 @@ def main():
     # ------------------------------------------------ bounded stand-in
     bdoc, berr = (None, None)
     if not a.no_bounded:
-        bdoc, berr = run_bounded(prop, tier, seed, a.budget)
+        budget = a.budget
+        if budget is None and (undecided or failed) and tier == 'quick':
+            budget = -5            # the deductive evidence is (partly) gone: search five times harder
+        bdoc, berr = run_bounded(prop, tier, seed, budget)
         if bdoc is None:
             print('checker crash: bounded stand-in failed\n' + (berr or ''), file=sys.stderr); return 3
     findings = bdoc['findings'] if bdoc else []
